@@ -143,15 +143,27 @@ func main() {
 		}
 	}
 	sort.Ints(mods)
+	// module 0 = a package WITHOUT module information (GOPATH mode): -go module falls back to the toolchain's
+	// newest release tag, an explicit -go 1.N must still be honoured
+	mods = append([]int{0}, mods...)
 	for _, m := range mods {
 		dir := filepath.Join(*work, fmt.Sprintf("m%d", m))
-		hx.WriteFile(filepath.Join(dir, "go.mod"), fmt.Sprintf("module example.com/m%d\n\ngo 1.%d\n", m, m))
+		var env []string
+		if m == 0 {
+			dir = filepath.Join(*work, "gopath", "src", "nm")
+			env = []string{"GO111MODULE=off", "GOPATH=" + filepath.Join(*work, "gopath"), "GOFLAGS="}
+		} else {
+			hx.WriteFile(filepath.Join(dir, "go.mod"), fmt.Sprintf("module example.com/m%d\n\ngo 1.%d\n", m, m))
+		}
 		// tags: absent, lower, equal, higher, and the 1.20/1.21/1.22 boundary
-		tagset := map[int]bool{0: true, m: true}
+		tagset := map[int]bool{0: true}
+		if m != 0 {
+			tagset[m] = true
+		}
 		if m > lo {
 			tagset[lo+rnd.Intn(m-lo)] = true
 		}
-		if m < hi {
+		if m != 0 && m < hi {
 			tagset[m+1+rnd.Intn(hi-m)] = true
 		}
 		tagset[20], tagset[21], tagset[22] = true, true, true
@@ -181,7 +193,7 @@ func main() {
 			// ONE cache directory per module, shared by the runs with different -go values (in seeded order):
 			// a result cached under one effective version must never be served under another.
 			cacheDir := filepath.Join(*work, fmt.Sprintf("cache-%d", m))
-			res, err := hx.RunAnalyzers(dir, cacheDir, gv, config.DefaultConfig, []*analysis.Analyzer{an}, nil, ".")
+			res, err := hx.RunAnalyzers(dir, cacheDir, gv, config.DefaultConfig, []*analysis.Analyzer{an}, env, ".")
 			if err != nil {
 				fmt.Fprintln(os.Stderr, "run failed:", err)
 				os.Exit(2)
